@@ -219,10 +219,11 @@ def observe(ctx, d, argv, kind, arg, i, ents=None, extra_roots=()):
         outroot = arg
         idx = roots.index(outroot) if outroot in roots else 0
         rr, cc, ch = diff(before[idx], after[idx])
-        allowed = set()
-        for e in ents or []:
-            allowed.add(e.name + "." + ("%X" % e.pel.eid) + ".json")
-            allowed.add(e.name + "." + ("%08X" % e.pel.eid) + ".json")
+        class Allowed:
+            """file names of the form <pel file>.<entry id>.json (hex, zero padding not constrained)"""
+            def __contains__(self, fn):
+                return any(dirs.is_json_name(fn, e.name, e.pel.eid) for e in ents or [])
+        allowed = Allowed()
         # everything that changed anywhere
         allch = []
         for r, b, a in zip(roots, before, after):
